@@ -393,6 +393,8 @@ where
 // label's character array (published by the harness in ANY_CS / ANY_N).  Cheap, and -- unlike S-RULE -- every
 // scenario exists on the real code (C03 decides rule == specification), so counterexamples replay natively.
 pub static mut ANY_N: usize = 0;
+/// context predicate mask of each label character, computed once by the harness
+pub static mut ANY_MASK: [u16; 8] = [0; 8];
 type RuleR = Result<bool, precis_core::context::ContextRuleError>;
 fn rs_at(off: usize) -> Option<u32> {
     unsafe {
@@ -403,8 +405,14 @@ fn rs_at(off: usize) -> Option<u32> {
         }
     }
 }
-fn rs_has(cp: u32, bit: u16) -> bool {
-    super::oracle::ctx_mask(cp) & bit != 0
+fn rs_mask(off: usize) -> u16 {
+    unsafe {
+        if off < ANY_N && off < 8 {
+            ANY_MASK[off]
+        } else {
+            0
+        }
+    }
 }
 fn rs_own(off: usize, lo: u32, hi: u32) -> Result<u32, precis_core::context::ContextRuleError> {
     match rs_at(off) {
@@ -423,7 +431,7 @@ pub fn rs_zwj(_s: &str, off: usize) -> RuleR {
     if off == 0 {
         return Err(precis_core::context::ContextRuleError::Undefined);
     }
-    Ok(rs_has(rs_at(off - 1).unwrap_or(0), super::oracle::CTX_VIRAMA))
+    Ok(rs_mask(off - 1) & super::oracle::CTX_VIRAMA != 0)
 }
 pub fn rs_middle_dot(_s: &str, off: usize) -> RuleR {
     rs_own(off, 0xb7, 0xb7)?;
@@ -439,7 +447,7 @@ pub fn rs_keraia(_s: &str, off: usize) -> RuleR {
     rs_own(off, 0x375, 0x375)?;
     match rs_at(off + 1) {
         None => Err(precis_core::context::ContextRuleError::Undefined),
-        Some(n) => Ok(rs_has(n, super::oracle::CTX_GREEK)),
+        Some(_) => Ok(rs_mask(off + 1) & super::oracle::CTX_GREEK != 0),
     }
 }
 pub fn rs_hebrew(_s: &str, off: usize) -> RuleR {
@@ -447,14 +455,14 @@ pub fn rs_hebrew(_s: &str, off: usize) -> RuleR {
     if off == 0 {
         return Err(precis_core::context::ContextRuleError::Undefined);
     }
-    Ok(rs_has(rs_at(off - 1).unwrap_or(0), super::oracle::CTX_HEBREW))
+    Ok(rs_mask(off - 1) & super::oracle::CTX_HEBREW != 0)
 }
 fn rs_any(lo: u32, hi: u32, mask: u16) -> bool {
     let mut i = 0;
     let mut r = false;
     while i < 8 {
         if let Some(c) = rs_at(i) {
-            if (mask == 0 && lo <= c && c <= hi) || (mask != 0 && super::oracle::ctx_mask(c) & mask != 0) {
+            if (mask == 0 && lo <= c && c <= hi) || (mask != 0 && rs_mask(i) & mask != 0) {
                 r = true;
             }
         }
